@@ -85,6 +85,19 @@ struct Engine { hp: u16 }
 type Wheels = Vec<Wheel>;
 type Seats = [Seat; 2];
 type MaybeEngine = Option<Engine>;
+// two types in one file that import DIFFERENT names from one other shared file
+#[derive(TS)]
+#[ts(export_to = "dep.ts")]
+struct DepW { w: u8 }
+#[derive(TS)]
+#[ts(export_to = "dep.ts")]
+struct DepX { x: u8 }
+#[derive(TS)]
+#[ts(export_to = "pshared.ts")]
+struct PA { x: DepX }
+#[derive(TS)]
+#[ts(export_to = "pshared.ts")]
+struct PB { w: DepW, l: Leaf }
 #[derive(TS)]
 struct CarAliased { wheels: Wheels, seats: Seats, engine: MaybeEngine }
 
@@ -152,6 +165,7 @@ fn universe() -> Vec<Entry> {
         entry::<Option<Outer>>("Option<Outer>"), entry::<Wrapper<ts_rs::Dummy>>("Wrapper<Dummy>"),
         entry::<Dflt<ts_rs::Dummy>>("Dflt<Dummy>"),
         entry::<Wheel>("Wheel"), entry::<Seat>("Seat"), entry::<Engine>("Engine"), entry::<CarAliased>("CarAliased"),
+        entry::<DepW>("DepW"), entry::<DepX>("DepX"), entry::<PA>("PA"), entry::<PB>("PB"),
     ]
 }
 
